@@ -237,6 +237,8 @@ func (in *Interp) eval(c *Cond) bool {
 		return int64(in.calls-1) == c.C
 	case OpInvLT:
 		return int64(in.calls-1) < c.C
+	case OpInvGE:
+		return int64(in.calls-1) >= c.C
 	}
 	if c.Var >= len(in.env.set) || !in.env.set[c.Var] {
 		return false
